@@ -227,7 +227,7 @@ class MinFlowDecomp(pathmodel.AbstractPathModelDAG): # Note that we inherit from
         if self.optimization_options.get("optimize_with_guessed_weights", MinFlowDecomp.optimize_with_given_weights):            
             self._solve_with_given_weights()
 
-        for i in range(self.get_lowerbound_k(), self.G.number_of_edges()):
+        for i in range(self.get_lowerbound_k(), self.G.number_of_edges() + 1):
             utils.logger.info(f"{__name__}: iteration with k = {i}")
             fd_model = None
             # Checking if we have already found a solution with the same number of paths
